@@ -93,12 +93,17 @@ def fn_of_line(metas, line):
 
 
 def scan_assumptions(text):
-    """Mechanical scan of the generated Verus file for anything that is assumed rather than proved."""
+    """Mechanical scan of the generated Verus file for anything that is assumed rather than proved.
+    Items preceded by `// @proved-in <unit> <fn>` are contracts imported from the unit that proves them."""
     found = []
     lines = text.split('\n')
     for i, ln in enumerate(lines):
         s = ln.strip()
         if s.startswith('//'):
+            continue
+        if i > 0 and lines[i - 1].strip().startswith('// @proved-in'):
+            pm = lines[i - 1].strip().split()
+            found.append('imported-contract %s (proved in unit %s)' % (pm[3], pm[2]))
             continue
         if 'external_body' in s or 'assume_specification' in s or re.search(r'\bassume\s*\(', s) or re.search(r'\badmit\s*\(', s) or 'uninterp spec fn' in s or 'external_type_specification' in s or '#[verifier::external' in s:
             # name: next fn/struct/spec ident
@@ -186,8 +191,12 @@ def verify_unit(unit, tier):
         return res
     text = open(gen).read()
     res['assumptions'] = scan_assumptions(text)
-    allowed = set(INDEX.get('allowed_assumptions', []))
-    extra = [a for a in res['assumptions'] if a not in allowed]
+    allowed = set()
+    for pf in sorted(os.listdir(os.path.join(VERIF, 'units'))):
+        if pf.startswith('prelude_') and pf.endswith('.rs'):
+            allowed |= set(scan_assumptions(open(os.path.join(VERIF, 'units', pf)).read()))
+    res['imports'] = sorted(set(a.split('proved in unit ')[1].rstrip(')') for a in res['assumptions'] if a.startswith('imported-contract')))
+    extra = [a for a in res['assumptions'] if a not in allowed and not a.startswith('imported-contract')]
     if extra:
         res['status'] = 'undecided'
         res['undecided'].append('assumption(s) not on the A-list: %s' % extra)
@@ -259,6 +268,8 @@ def verify_unit(unit, tier):
             tpath, twins = make_twin_file(template, unit)
             tv = run_verus(tpath)
             tblocks = parse_verus_stderr(tv['stderr'])
+            if tv['json'] is None or 'verified' not in tv['json']['verification-results'] or tv['json']['verification-results'].get('encountered-vir-error') or any(b['level'].startswith('error[') for b in tblocks):
+                raise RuntimeError('twin file rejected by verus: ' + tv['stderr'][-800:])
             failed_twins = set()
             for b in tblocks:
                 if b['level'] == 'error' and classify(b['msg']):
@@ -319,7 +330,18 @@ def main():
     if not pinfo:
         print('property %s is not claimed (see MANIFEST.not_applicable)' % pid)
         sys.exit(2)
-    units = pinfo['units']
+    units = list(pinfo['units'])
+    # close the unit list under contract imports (a caller's proof is only as good as the callee's proof)
+    changed = True
+    while changed:
+        changed = False
+        for u in list(units):
+            t = open(os.path.join(VERIF, 'units', INDEX['units'][u]['file'])).read()
+            for m in re.finditer(r'//@import\s+(\S+)', t):
+                dep = m.group(1).rsplit('.', 1)[0]
+                if dep not in units:
+                    units.append(dep)
+                    changed = True
     with cf.ThreadPoolExecutor(max_workers=min(8, len(units))) as ex:
         results = list(ex.map(lambda u: verify_unit(u, tier), units))
     known = load_known()
